@@ -27,6 +27,9 @@ pub struct Meta {
     pub links: u64,
     pub uid: Option<u32>,
     pub gid: Option<u32>,
+    /// device id (hardlink detection needs a non-zero device and inode and links > 1)
+    #[serde(default)]
+    pub dev: u64,
 }
 
 impl Meta {
@@ -276,7 +279,7 @@ pub fn node_of(name: &[u8], e: &Entry, raw_name: Option<&String>) -> Node {
         user: None,
         group: None,
         inode: e.meta.inode,
-        device_id: 0,
+        device_id: e.meta.dev,
         size,
         links: e.meta.links,
         extended_attributes: Vec::new(),
